@@ -25,7 +25,7 @@ TableVerdict(e, rs) ==
         got  == [k \in DOMAIN e.table |-> [sample |-> e.table[k].sample, key |-> e.table[k].key, w |-> e.table[k].w]]
         cells == { Cell(got[k]) : k \in DOMAIN got } \cup { Cell(hi[k]) : k \in DOMAIN hi }
         bad(cell) == SumAt(got, cell) < SumAt(lo, cell) \/ SumAt(got, cell) > SumAt(hi, cell)
-        samples == { rs[k].sample : k \in { j \in DOMAIN rs : MayCount(rs[j], o) } }
+        samples == { ColumnOf(rs[k], o) : k \in { j \in DOMAIN rs : MayCount(rs[j], o) } }
     IN IF e.raised # "" THEN "Inv_C11_Total"
        ELSE IF \E k \in DOMAIN got : got[k].sample \notin samples /\ got[k].w # 0 THEN "Inv_C11_Sample"
        ELSE IF \E cell \in cells : bad(cell) THEN
